@@ -1,8 +1,8 @@
 from props import sched_common
 
 THEOREMS = ["Dispenso.Sched." + t for t in ['C47_fq_never_begins_inline', 'C47_fq_blocks_inline_decisions', 'C47_inline0_needs_no_threads', 'C47_fq_cleared_only_without_threads', 'C47_fq_cleared_top']]
-# (flavour, scenarios in the quick tier): 0 mixed, 1 without resize, 2 resize-heavy
-FLAVOURS = [(1, 300), (0, 100)]
+# (flavour, scenarios in the quick tier): 0 mixed, 1 without resize, 2 resize-heavy, 3 overloaded pool + chains
+FLAVOURS = [(1, 250), (0, 100), (3, 50)]
 
 
 def run(ctx, replay):
